@@ -123,7 +123,7 @@ func (e *Engine) callFunc(st *State, fn *ssa.Function, binds []Val, args []Val, 
 	if c == nil && (isClosure || strings.Contains(fn.Name(), "$bound") || strings.Contains(fn.Name(), "$thunk")) && fn.Blocks != nil {
 		inline = true
 	}
-	if c == nil && e.unit.C != nil && e.unit.C.Opts["inline"] != "" && fn.Blocks != nil {
+	if e.unit.C != nil && e.unit.C.Opts["inline"] != "" && fn.Blocks != nil {
 		for _, n := range strings.Split(e.unit.C.Opts["inline"], ",") {
 			if strings.TrimSpace(n) == fn.Name() || strings.TrimSpace(n) == fn.RelString(fn.Pkg.Pkg) {
 				inline = true
@@ -284,6 +284,10 @@ func (e *Engine) inlineCall(st *State, fn *ssa.Function, c *Contract, binds []Va
 		k(st2, results)
 	}
 	st.frames = append(st.frames, fr)
+	if c != nil {
+		// ghost variables of an inlined function's own contract
+		e.declareGhosts(st, c)
+	}
 	e.execBlock(st, fn.Blocks[0], nil)
 }
 
